@@ -259,6 +259,19 @@ Theorem C09_mem_refines_history : forall os,
   /\ MemSim (mem_exec mem_empty os) (fst (memspec_run memspec_empty os (snd (mem_run mem_empty os)))).
 Proof. intro os. exact (mem_refines_history_lemma os mem_empty memspec_empty (proj1 mem_empty_ok) (proj2 mem_empty_ok)). Qed.
 
+(* the counter behind bytes_allocated() for the whole state: 8 bytes per live manual slot plus, since
+   0d876af, one byte per byte of every live byte buffer; an operation that fails leaves it unchanged *)
+Theorem C09_mem_accounting : forall st,
+  MemInv st -> mem_charged st = 8 * live_total (allocs (fst st)) + btotal (snd st).
+Proof. exact mem_accounting_lemma. Qed.
+
+Theorem C09_mem_error_keeps_charge : forall st o,
+  MemInv st ->
+  (match snd (mem_step st o) with ResM r => is_err r = true | ResB r => r = BErr end) ->
+  mem_charged (fst (mem_step st o)) = mem_charged st.
+Proof. exact mem_error_keeps_charge. Qed.
+
+(* neither half touches the other's buffers (they only share the counter [mem_charged]) *)
 Theorem C09_mem_independent : forall st o,
   (forall m, o = OpM m -> snd (fst (mem_step st o)) = snd st)
   /\ (forall b, o = OpB b -> fst (fst (mem_step st o)) = fst st).
